@@ -140,7 +140,7 @@ func runC10(c *core.Ctx) {
 	names, _ := tokenTypeNames(p)
 
 	// ---------- C10.depth ----------
-	c.Rule("C10.depth", "in each decoder package every recursive call among its functions either passes the caller's depth parameter through unchanged or passes depth+k (k>=1) from a point dominated by the not-exceeded edge of a comparison depth >= limit; every recursive cycle contains an incrementing call", 5)
+	c.Rule("C10.depth", "in each decoder package every recursive call among its functions either passes the caller's depth parameter through unchanged or passes depth+k (k>=1) from a point dominated by the not-exceeded edge of a comparison depth >= limit; every recursive cycle contains an incrementing call", 2)
 	for _, rel := range []string{"codec/dagcbor", "codec/dagjson"} {
 		checkDepth(c, rel)
 	}
@@ -164,7 +164,7 @@ func runC10(c *core.Ctx) {
 			}
 		}
 		key := core.FuncKey(tc.fn)
-		for _, ci := range core.CallsR(tc.fn) {
+		for _, ci := range tc.calls() {
 			name, ok := assemblerCall(ci)
 			if !ok {
 				continue
